@@ -49,22 +49,40 @@ def one(seed):
 
 def main():
     seeds = sorted(os.listdir(os.path.join(VERIF, 'seeded')))
-    if len(sys.argv) > 1:
-        seeds = [s for s in seeds if any(a in s for a in sys.argv[1:])]
+    if [a for a in sys.argv[1:] if not a.startswith('--')]:
+        seeds = [s for s in seeds if any(a in s for a in sys.argv[1:] if not a.startswith('--'))] or seeds
     res = {}
     with concurrent.futures.ThreadPoolExecutor(max_workers=16) as ex:
         for seed, status, fired in ex.map(one, seeds):
             res[seed] = (status, fired)
-    n = 0
+    n = nb = nt = fa = 0
+    write = '--write' in sys.argv
     for seed in seeds:
         status, fired = res[seed]
+        mp = os.path.join(VERIF, 'seeded', seed, 'meta.json')
+        meta = json.load(open(mp))
+        twin = meta.get('kind') == 'twin'
         own = seed.split('-')[0]
         mark = ''
-        if status == 'CAUGHT':
-            n += 1
-            mark = ' [own property]' if own in fired else ' [other property only]'
-        print(f'{seed:9s} {status:12s} ' + ' '.join(f'{p}:{"+".join(r)}' for p, r in sorted(fired.items())) + mark)
-    print(f'{n}/{len(seeds)} caught')
+        if twin:
+            nt += 1
+            if status == 'CAUGHT':
+                fa += 1
+                status = 'FALSE-ALARM'
+            elif status == 'MISSED':
+                status = 'silent'
+        else:
+            nb += 1
+            if status == 'CAUGHT':
+                n += 1
+                mark = ' [own property]' if own in fired else ' [other property only]'
+            if write and status in ('CAUGHT', 'MISSED'):
+                real = {p: r for p, r in fired.items() if not any(x.startswith('EXIT') for x in r)}
+                meta['expect'] = sorted(real)
+                meta['caught_by'] = {p: real[p] for p in sorted(real)}
+                json.dump(meta, open(mp, 'w'), indent=1)
+        print(f'{seed:10s} {status:12s} ' + ' '.join(f'{p}:{"+".join(r)}' for p, r in sorted(fired.items())) + mark)
+    print(f'{n}/{nb} breaking changes caught; {fa}/{nt} twins falsely reported')
 
 
 if __name__ == '__main__':
